@@ -3,13 +3,17 @@
     _build_fake_vkey_witnesses() of the prepared builder (before build);
   * end to end: build_and_sign(signing keys, force_skeys, auto_required_signers) -> tx.to_cbor(), and
     _build_required_vkeys() after the build.
-Scenario format: see tools/props/c10.py (gen_scenario)."""
+Scenario format: see tools/props/c10.py (gen_scenario).  A native script handed to the builder (entry of 'attached') reaches it
+as a script object (via=witness), through a separate UTxO that carries it (via=ref: add_script_input(u, script=<UTxO>),
+add_minting_script / add_withdrawal_script / add_certificate_script(<UTxO>)), in the output of the spent UTxO itself (via=self),
+or by the builder's own search of the context at the script address (via=lookup); 'extra_refs' are UTxOs written to
+builder.reference_inputs directly."""
 from _pre import *
 from pycardano import (Address, Network, TransactionBuilder, TransactionInput, TransactionOutput, TransactionId,
                        UTxO, Value, MultiAsset, Asset, AssetName, VerificationKeyHash, ScriptHash, PoolKeyHash,
                        ScriptPubkey, ScriptAll, ScriptAny, ScriptNofK, InvalidBefore, InvalidHereAfter,
                        Withdrawals, ProtocolParameters, GenesisParameters, ChainContext,
-                       SigningKey, ExtendedSigningKey, PaymentSigningKey, StakeSigningKey, StakePoolSigningKey,
+                       script_hash, SigningKey, ExtendedSigningKey, PaymentSigningKey, StakeSigningKey, StakePoolSigningKey,
                        PaymentExtendedSigningKey, StakeExtendedSigningKey)
 from pycardano.certificate import (
     StakeCredential, DRepCredential, DRep, DRepKind, Anchor, StakeRegistration, StakeDeregistration, StakeDelegation,
@@ -174,7 +178,7 @@ def prepare(sc):
     by_addr = {}
     for u in sc['utxos']:
         pay = u['pay']
-        if pay[0] == 'att':
+        if pay[0] == 'att':                                  # older replay files
             pay_part = att_scripts[pay[1]].hash()
         else:
             pay_part = cred_obj(pay)
@@ -183,17 +187,31 @@ def prepare(sc):
         amount = Value(u['coin'])
         if u.get('tokens'):
             amount = Value(u['coin'], MultiAsset({ScriptHash(H(p)): Asset({AssetName(H(n)): q}) for p, n, q in u['tokens']}))
-        x = UTxO(TransactionInput(TransactionId(H(u['txid'])), u['ix']), TransactionOutput(addr, amount))
+        out = TransactionOutput(addr, amount, script=mk_ns(u['script'])) if u.get('script') is not None else TransactionOutput(addr, amount)
+        x = UTxO(TransactionInput(TransactionId(H(u['txid'])), u['ix']), out)
         utxos.append(x)
         by_addr.setdefault(str(addr), []).append(x)
     ctx = Ctx(by_addr)
     b = TransactionBuilder(ctx)
+    def supplied(i):
+        """what is passed as `script`: the object, or the UTxO that carries it"""
+        a = attached[i]
+        return utxos[a['ref_utxo']] if a.get('via', 'witness') == 'ref' else att_scripts[i]
     att_inputs = {a['utxo']: i for i, a in enumerate(attached) if a['how'] == 'input'}
     for i in sc['inputs']:
         if i in att_inputs:
-            b.add_script_input(utxos[i], script=att_scripts[att_inputs[i]])
+            a = attached[att_inputs[i]]
+            via = a.get('via', 'witness')
+            if via == 'ref':
+                b.add_script_input(utxos[i], script=utxos[a['ref_utxo']])
+            elif via == 'lookup' or (via == 'self' and not a.get('pass_obj')):
+                b.add_script_input(utxos[i])
+            else:
+                b.add_script_input(utxos[i], script=att_scripts[att_inputs[i]])
         else:
             b.add_input(utxos[i])
+    for i in sc.get('extra_refs', []):
+        b.reference_inputs.add(utxos[i])
     for a in sc.get('input_addresses', []):
         b.add_input_address(Address(cred_obj(a), network=NET))
     for i in sc['collateral']:
@@ -209,18 +227,18 @@ def prepare(sc):
         wd[bytes(Address(staking_part=cred_obj(w['cred']), network=NET))] = w['coin']
     for i, a in enumerate(attached):
         if a['how'] == 'mint':
-            b.add_minting_script(att_scripts[i])
+            b.add_minting_script(supplied(i))
             ma = b.mint or MultiAsset()
             ma += MultiAsset({att_scripts[i].hash(): Asset({AssetName(b'T%d' % i): 1})})
             b.mint = ma
         elif a['how'] == 'withdrawal':
-            b.add_withdrawal_script(att_scripts[i])
+            b.add_withdrawal_script(supplied(i))
             wd[bytes(Address(staking_part=att_scripts[i].hash(), network=NET))] = 1000000
         elif a['how'] == 'cert':
             if not b.certificates:
                 b.certificates = []
             b.certificates.append(StakeDelegation(StakeCredential(att_scripts[i].hash()), POOL))
-            b.add_certificate_script(att_scripts[i])
+            b.add_certificate_script(supplied(i))
     if wd:
         b.withdrawals = Withdrawals(wd)
     for v in sc['voters']:
@@ -245,6 +263,8 @@ def handler(sc, payload):
         'required': hexset(b._build_required_vkeys()),
         'witness_count': b._witness_count(),
         'fake': [[w.vkey.payload.hex(), w.signature.hex()] for w in b._build_fake_vkey_witnesses()],
+        'all_scripts': sorted(script_hash(x).payload.hex() for x in b.all_scripts),
+        'scripts': sorted(script_hash(x).payload.hex() for x in b.scripts),
     }
     if sc.get('sign', True):
         keys = [mk_key(sc['keys'][i]) for i in sc['supplied']]
